@@ -51,3 +51,21 @@ pub fn set_skip_reorder(skip: bool) {
 pub fn skip_reorder() -> bool {
     SKIP_REORDER.load(Ordering::SeqCst)
 }
+
+type ShardFn = Arc<dyn Fn(&'static str, usize, usize, usize) + Send + Sync>;
+
+static SHARD_CB: RwLock<Option<ShardFn>> = RwLock::new(None);
+
+/// Install (or clear) the callback that observes the `(index, start, end)` slice boundaries
+/// computed by the parallel writers (`write_jsonl_par`, `write_csv_par`).
+pub fn set_shard_callback(cb: Option<ShardFn>) {
+    *SHARD_CB.write().unwrap() = cb;
+}
+
+/// Called by a parallel writer with each shard's boundaries right before the slice is taken.
+pub fn on_shard(site: &'static str, idx: usize, start: usize, end: usize) {
+    let cb = SHARD_CB.read().unwrap().clone();
+    if let Some(cb) = cb {
+        cb(site, idx, start, end);
+    }
+}
